@@ -77,6 +77,30 @@ func c08SchnorrReal(c *kc.Ctx) {
 				c.Violation("schnorr:"+g.Name+":honest-rejected", "schnorr.Verify rejects an honest signature ("+res+")", rp)
 				continue
 			}
+			// the sign.Scheme object: a key is a value — the same Scheme signs with a private scalar that is then
+			// updated in place, and the new signature verifies under the new public key
+			if i%3 == 0 {
+				sch := schnorr.NewScheme(suite)
+				xk := x.Clone()
+				s1, e1 := sch.Sign(xk, msg)
+				X1 := g.Group.Point().Mul(xk, nil)
+				v1 := "err"
+				if e1 == nil {
+					v1 = sigErrStr(sch.Verify(X1, msg, s1))
+				}
+				xk.Add(xk, g.Group.Scalar().One())
+				s2, e2 := sch.Sign(xk, msg)
+				X2 := g.Group.Point().Mul(xk, nil)
+				v2 := "err"
+				if e2 == nil {
+					v2 = kc.Recover(func() string { return sigErrStr(sch.Verify(X2, msg, s2)) })
+				}
+				v3 := kc.Recover(func() string { return sigErrStr(schnorr.Verify(g.Group, X2, msg, s2)) })
+				c.Eval(3)
+				if v1 != "ok" || v2 != "ok" || v3 != "ok" {
+					c.Violation("schnorr:"+g.Name+":scheme-key-updated-in-place", fmt.Sprintf("sign.Scheme: first signature %s; after the private scalar was updated in place the new signature verifies %s (Scheme.Verify) / %s (schnorr.Verify) under the new public key", v1, v2, v3), rp)
+				}
+			}
 			// caller-owned buffers: verify, overwrite the message / signature buffer in place, verify again
 			if len(msg) > 0 {
 				mb, sb := append([]byte{}, msg...), append([]byte{}, sig...)
